@@ -175,6 +175,8 @@ def fbin(op, a, b):
                 return a
         if op == "fsub" and cb and b == 0.0:
             return a
+        if op == "fsub" and ca and a == 0.0:
+            return fun("fneg", b)
         if op == "fdiv" and ca and a == 0.0:
             return 0.0
         if op == "fmul":
@@ -205,12 +207,19 @@ def _scaled(t):
         r = _scaled(t.args[0])
         if r:
             return -r[0], r[1]
+    if is_t(t) and t.op in ("var",):
+        return 1.0, t
     return None
 
 
 def fun(op, a):
     if is_t(a) and a.op == "ite" and _has_nf_leaf(a):
         return _lift1(lambda x: fun(op, x), a)
+    if op == "fsqrt" and REAL_SIMPLIFY and is_t(a) and a.op == "fmul" and a.args[0] is a.args[1]:
+        sp = _scaled(a.args[0])
+        if sp:
+            return fbin("fmul", fun("fabs", sp[1]), abs(sp[0]))
+        return fun("fabs", a.args[0])
     if op == "fsqrt" and REAL_SIMPLIFY and is_t(a) and a.op == "fadd":
         # sqrt((c1 r)^2 + (c2 r)^2) = |r| sqrt(c1^2 + c2^2)   (radial vertices; exact over the reals up
         # to the rounding of the concrete constant)
